@@ -45,7 +45,12 @@ def extract_automaton(ctx):
         return auto
     except AnalysisError as e:
         if not isinstance(env0.vars.get("_decode"), Fn):
-            raise
+            # neither shape: the validator keeps its state somewhere the two structural extractions do not look (a coroutine,
+            # an object).  Third mode: learn its automaton by folding the whole function on constant byte strings
+            ctx.notes.append(f"loop-head extraction not applicable ({e}) and no step function _decode; learning the automaton by folding the validator on constant words")
+            auto = extract_automaton_by_queries(ctx, f_val)
+            ctx.cache["c06:auto"] = auto
+            return auto
         ctx.notes.append(f"loop-head extraction not applicable ({e}); using the step function _decode")
     f_dec = _utils_fn(ctx, I0, "_decode")
     dec_q = f_dec.qualname
@@ -209,6 +214,67 @@ def extract_automaton(ctx):
             "roles": {"state_param": sp, "byte_param": bp, "state_result": ri}}
     ctx.cache["c06:auto"] = auto
     return auto
+
+
+def extract_automaton_by_queries(ctx, f_val):
+    """Angluin-style observation table filled by *folding* `_validate_utf8` on constant words (nothing is executed: the abstract
+    interpreter evaluates the function on constants).  Rows are distinguished by the characterisation set of the reference
+    automaton, so the result is exact under the assumption that the validator has no state that this set does not tell apart
+    from the others (recorded in the evidence).  The automaton learned is then compared with the reference like the others."""
+    from ..dfa import RefUtf8
+    idx = ctx.index
+    I = Interp(idx, Config(loop_unroll=64, max_steps=5_000_000, max_seconds=300.0))
+    # characterisation set of the reference: shortest words telling each pair of its states apart
+    ref_states = [RefUtf8.start]
+    for st in ref_states:
+        for b in range(256):
+            t = RefUtf8.step(st, b)
+            if t not in ref_states:
+                ref_states.append(t)
+    E = {b""}
+    for i, p in enumerate(ref_states):
+        for q2 in ref_states[i + 1:]:
+            w, _, _ = distinguish(RefUtf8.step, RefUtf8.accepting, p, RefUtf8.step, RefUtf8.accepting, q2)
+            if w is not None:
+                E.add(w)
+    E = sorted(E, key=lambda w: (len(w), w))
+    memo = {}
+
+    def ask(words):
+        todo = [w for w in dict.fromkeys(words) if w not in memo]
+        for k in range(0, len(todo), 512):
+            chunk = todo[k:k + 512]
+            outs = I.explore(lambda run, chunk=chunk: Tup(tuple(I.call(run, f_val, [C(w)], {}, None) for w in chunk)))
+            ctx.paths += len(outs)
+            if len(outs) != 1 or outs[0].kind != "return" or not all(isinstance(x, C) for x in outs[0].value.items):
+                raise AnalysisError(f"the validator does not fold on constant words ({[(o.kind, o.exc_class or o.note) for o in outs][:2]})")
+            for w, x in zip(chunk, outs[0].value.items):
+                memo[w] = bool(x.v)
+
+    def row(w):
+        return tuple(memo[w + e] for e in E)
+
+    S = [b""]
+    ask([e for e in E])
+    rows = {row(b""): 0}
+    table = {}
+    i = 0
+    while i < len(S):
+        s0 = S[i]
+        ask([s0 + bytes([b]) + e for b in range(256) for e in E])
+        for b in range(256):
+            r = row(s0 + bytes([b]))
+            if r not in rows:
+                if len(S) >= 64:
+                    raise AnalysisError("the validator has more than 64 distinguishable states")
+                rows[r] = len(S)
+                S.append(s0 + bytes([b]))
+            table[(i, b)] = rows[r]
+        i += 1
+    accept = {k: memo[S[k]] for k in range(len(S))}
+    ctx.notes.append(f"automaton learned by folding on {len(memo)} constant words: {len(S)} states, characterisation set of {len(E)} suffixes "
+                     f"(exact if the validator has no state these suffixes do not distinguish)")
+    return {"start": 0, "delta": lambda st, b: table[(st, b)], "accept": accept, "early": {}, "states": list(range(len(S)))}
 
 
 def _names_read(node):
